@@ -2204,9 +2204,33 @@ XPathProcessorImpl::LocationPath()
 
     m_expression->appendOpCode(XPathExpression::eOP_LOCATIONPATH);
 
+    bool    fRootOnly = false;
+
     if(tokenIs(XalanUnicode::charSolidus) == true)
     {
         nextToken();
+
+        // '/' by itself is a complete path.  What follows it is part
+        // of the path only if it can begin a step; otherwise it belongs
+        // to the enclosing expression, as in '/ | a' or 'a[/]'.
+        fRootOnly =
+            m_token.empty() == true ||
+            (tokenIs(s_dotString) == false &&
+             tokenIs(s_dotDotString) == false &&
+             tokenIs(XalanUnicode::charAsterisk) == false &&
+             tokenIs(XalanUnicode::charCommercialAt) == false &&
+             tokenIs(XalanUnicode::charSolidus) == false &&
+             tokenIs(XalanUnicode::charLowLine) == false &&
+             XalanXMLChar::isLetter(m_token[0]) == false);
+
+        if (fRootOnly == true &&
+            tokenIs(XalanUnicode::charLeftSquareBracket) == true)
+        {
+            // A predicate needs a step, or a parenthesized expression.
+            error(
+                XalanMessages::UnexpectedTokenFound_1Param,
+                m_token);
+        }
 
         const int   newOpPos = m_expression->opCodeMapLength();
 
@@ -2223,7 +2247,7 @@ XPathProcessorImpl::LocationPath()
         m_expression->updateOpCodeLength(newOpPos);
     }
 
-    if(m_token.empty() == false)
+    if(m_token.empty() == false && fRootOnly == false)
     {
         RelativeLocationPath();
     }
